@@ -8,6 +8,7 @@ LEVEL = 'model_checking'
 
 def plan(tier):
     units, info = wrgraph.wr_plan(tier)
+    units = units + wrgraph.scale_units(tier)[0]
     return {
         'units': units,
         'rule': '(a) from every canonical state of the closed writer+reader '
@@ -47,10 +48,18 @@ def oracle(ex):
 
 
 def run_unit(unit, tier):
+    if unit[0] == 'scale':
+        from mc.explore import Acc
+        return wrgraph.wr_run_scale_unit(unit, tier, oracle, Acc)
     return wrgraph.wr_run_unit(unit, tier, oracle, False, ID)
 
 
 def replay(payload):
+    if payload.get('kind') == 'scale':
+        cfgs, variants = wrgraph.scale_units('quick')[1:]
+        root, enc, le = variants[payload['variant']]
+        ex = wrgraph.Exec(wrgraph.scale_calls(payload['cfg'], enc, le), root)
+        return [{'key': k + ':scale', 'msg': m} for k, m in oracle(ex)]
     if payload.get('kind') != 'calls':
         return []
     ex = wrgraph.Exec(from_jsonable(payload['calls']), payload['root'])
